@@ -56,8 +56,16 @@ def parseU64Digits (ds : Bytes) : Option Nat :=
   let v := digitsVal ds
   if v ≤ U64MAX then some v else none
 
-/-- decimal rendering of a `Nat` (Rust `{}` for unsigned integers) -/
-def natToDec (n : Nat) : Bytes := (toString n).toUTF8.toList
+/-- decimal digits of `n`, most significant first (`fuel` bounds the number of digits) -/
+def natToDecFuel : Nat → Nat → Bytes
+  | 0, _ => []
+  | f + 1, n =>
+    if n < 10 then [UInt8.ofNat (48 + n)]
+    else natToDecFuel f (n / 10) ++ [UInt8.ofNat (48 + n % 10)]
+
+/-- decimal rendering of a `Nat` (Rust `{}` for unsigned integers); own definition rather than
+`toString` so that `digitsVal (natToDec n) = n` is provable (see `MpdProofs/Lemmas/Bytes.lean`) -/
+def natToDec (n : Nat) : Bytes := natToDecFuel (n + 1) n
 
 /-! ## UTF-8 validity (mirrors `core::str::from_utf8`, Unicode table 3-7) -/
 def isCont (b : UInt8) : Bool := 0x80 ≤ b && b ≤ 0xBF
